@@ -3,11 +3,14 @@
 (* dependency calls (signer.Sign, fs.OpenFile, file.Write, file.Close, fs.Open, file.Stat,          *)
 (* file.Read, readerat.ReadAt); exactly one of them, at position k, fails (error, or a short        *)
 (* count for Write).  The operation may clean up (Close) and must then report the failure.          *)
+(* With persist = TRUE the dependency stays broken: every later call - that is, the cleanup - fails  *)
+(* as well (a second, third ... fault); the report must still be the failure, and nothing new may    *)
+(* be attempted.                                                                                     *)
 EXTENDS Integers, Sequences, FiniteSets, TLC
 
 CONSTANTS Ops    \* operation name -> fault-free dependency-call sequence (function)
-VARIABLES op, k, kind, log, faulted, result, mutated, pc
-vars == <<op, k, kind, log, faulted, result, mutated, pc>>
+VARIABLES op, k, kind, persist, log, faulted, nfaults, result, mutated, pc
+vars == <<op, k, kind, persist, log, faulted, nfaults, result, mutated, pc>>
 
 Cleanup  == {"file.Close"}
 Mutating == {"fs.OpenFile", "fs.Create", "file.Write", "file.WriteAt", "file.Truncate", "fs.Remove", "fs.Rename"}
@@ -15,6 +18,7 @@ Kinds(d) == IF d = "file.Write" THEN {"error", "short"} ELSE IF d = "readerat.Re
 
 Init == /\ op \in DOMAIN Ops /\ k \in 0..Len(Ops[op]) /\ kind \in {"error", "short", "eof"}
         /\ (k = 0 => kind = "error") /\ (k > 0 => kind \in Kinds(Ops[op][k]))
+        /\ persist \in BOOLEAN /\ (k = 0 => persist = FALSE) /\ nfaults = 0
         /\ log = <<>> /\ faulted = FALSE /\ result = "none" /\ mutated = FALSE /\ pc = "run"
 
 (* the next dependency call of the fault-free sequence; the k-th one fails *)
@@ -22,15 +26,17 @@ Call == /\ pc = "run" /\ ~faulted /\ Len(log) < Len(Ops[op])
         /\ LET d == Ops[op][Len(log) + 1] IN
            /\ log' = Append(log, d)
            /\ faulted' = (Len(log) + 1 = k)
+           /\ nfaults' = (IF Len(log) + 1 = k THEN 1 ELSE 0)
            /\ mutated' = (mutated \/ (d \in Mutating /\ Len(log) + 1 # k))
-        /\ UNCHANGED <<op, k, kind, result, pc>>
+        /\ UNCHANGED <<op, k, kind, persist, result, pc>>
 (* after the fault: only cleanup *)
 CleanupCall == /\ pc = "run" /\ faulted /\ \E d \in Cleanup : log' = Append(log, d)
                /\ Len(log) < Len(Ops[op]) + 2
-               /\ UNCHANGED <<op, k, kind, faulted, result, mutated, pc>>
+               /\ nfaults' = (IF persist THEN nfaults + 1 ELSE nfaults)      \* the cleanup call fails too
+               /\ UNCHANGED <<op, k, kind, persist, faulted, result, mutated, pc>>
 Return == /\ pc = "run" /\ (faulted \/ Len(log) = Len(Ops[op]))
           /\ result' = (IF faulted THEN (IF op = "hashimage" THEN "nil" ELSE "error") ELSE "ok")
-          /\ pc' = "done" /\ UNCHANGED <<op, k, kind, log, faulted, mutated>>
+          /\ pc' = "done" /\ UNCHANGED <<op, k, kind, persist, log, faulted, nfaults, mutated>>
 Next == Call \/ CleanupCall \/ Return
 Spec == Init /\ [][Next]_vars
 
@@ -38,5 +44,6 @@ Spec == Init /\ [][Next]_vars
 NeverSuccessAfterFault == (pc = "done" /\ faulted) => result \in {"error", "nil"}
 FaultFreeSucceeds      == (pc = "done" /\ ~faulted) => result = "ok"
 NothingAfterFault == \A i \in 1..Len(log) : (k > 0 /\ i > k) => log[i] \in Cleanup
+MultiFaultStillReported == (pc = "done" /\ nfaults > 1) => result \in {"error", "nil"} /\ ~(\E i \in (k + 1)..Len(log) : log[i] \notin Cleanup)
 FailedSignWritesNothing == (k > 0 /\ Len(log) >= k /\ Ops[op][k] = "signer.Sign") => ~mutated
 =============================================================================
